@@ -2,31 +2,33 @@
      case <new|old> | <op>;<op>;...
         op = R
            | S <deploy a:c,..> <replace a:c,..> <nonce a:v,..> <store a:k:v,..> <decl h,..>
-               <blockhash> <txs h[:msg],..> <casm h:c,..> <migr h,..>
+               <blockhash> <txs h[:msg],..> <v2 0|1> <casm h:c:v2hash,..> <migr h:c,..>
      replies   ops <bit per op: store accepted (valid_next) / revert succeeded>
                guard <per op: for S the legacy guard (no no-op zero write, or genesis) 1/0, for R '-'>
+               sysg <per op: for S sys_guard (the block leaves the system contracts it writes to non-empty) 1/0, for R '-'>
                height <number of blocks>
                d <family> <entries>     decoded content of every index family of the model node,
                                         entries sorted by key: k.k.k=v separated by ','  ('-' if empty)
                end
    families: lstore a.k.b=v  lnonce a.b=v  lclass a.b=v  dh a=h  decl h=at  hdr n=hash  num hash=n
-             txs n=h+h+..(_ if none)  txidx h=n.i  l1 msg=h  upd n=1  commit n=1  casm h=at.m *)
+             txs n=h+h+..(_ if none)  txidx h=n.i  l1 msg=h  upd n=1  commit n=1  casm h=at.migr.v1(- if none).v2 *)
 let hx s = n_of_hex s
 let list_of s = if s = "-" then [] else String.split_on_char ',' s
 let pair s = match String.split_on_char ':' s with [a; b] -> (hx a, hx b) | _ -> failwith ("pair " ^ s)
 let triple s = match String.split_on_char ':' s with [a; b; c] -> ((hx a, hx b), hx c) | _ -> failwith ("triple " ^ s)
+let triple3 s = match String.split_on_char ':' s with [a; b; c] -> (hx a, (hx b, hx c)) | _ -> failwith ("triple3 " ^ s)
 let tx s = match String.split_on_char ':' s with
   | [h] -> (hx h, None) | [h; m] -> (hx h, Some (hx m)) | _ -> failwith ("tx " ^ s)
 
 let parse_op (s : string) : nop = match words s with
   | ["R"] -> NRevert
-  | ["S"; dep; rep; non; sto; dec; hash; txs; casm; migr] ->
+  | ["S"; dep; rep; non; sto; dec; hash; txs; v2; casm; migr] ->
       NStore { b_hash = hx hash;
                b_diff = { d_deploy = List.map pair (list_of dep); d_replace = List.map pair (list_of rep);
                           d_nonce = List.map pair (list_of non); d_store = List.map triple (list_of sto);
                           d_decl = List.map hx (list_of dec) };
                b_txs = List.map tx (list_of txs); b_commit = hx hash; b_bloom = N0;
-               b_casm = List.map pair (list_of casm); b_migr = List.map hx (list_of migr) }
+               b_v2 = (v2 = "1"); b_casm = List.map triple3 (list_of casm); b_migr = List.map pair (list_of migr) }
   | _ -> failwith ("op: " ^ s)
 
 let hk (k : n list) = String.concat "." (List.map hex_of_n k)
@@ -44,20 +46,23 @@ let () =
         let isnew = backend = "new" in
         let store = if isnew then store_new_node else store_old_node in
         let revert = if isnew then revert_new_node else revert_old_node in
-        let bits = Buffer.create 16 and guard = Buffer.create 16 in
+        let bits = Buffer.create 16 and guard = Buffer.create 16 and sysg = Buffer.create 16 in
         let x = ref node_empty in
         List.iter (fun o ->
           (match o with
            | NStore b ->
                Buffer.add_char guard (if guard_old !x b then '1' else '0');
+               Buffer.add_char sysg (if sys_guard !x.n_st b.b_diff then '1' else '0');
                Buffer.add_char bits (if valid_next !x b then '1' else '0')
            | NRevert ->
                Buffer.add_char guard '-';
+               Buffer.add_char sysg '-';
                Buffer.add_char bits (match revert !x with Some _ -> '1' | None -> '0'));
           x := nstep store revert !x o) ops;
         let x = !x in
         print_endline ("ops " ^ (if Buffer.length bits = 0 then "-" else Buffer.contents bits));
         print_endline ("guard " ^ (if Buffer.length guard = 0 then "-" else Buffer.contents guard));
+        print_endline ("sysg " ^ (if Buffer.length sysg = 0 then "-" else Buffer.contents sysg));
         print_endline ("height " ^ string_of_int (int_of_n x.n_st.s_next));
         dump "lstore" hex_of_n x.n_st.s_lstore; dump "lnonce" hex_of_n x.n_st.s_lnonce;
         dump "lclass" hex_of_n x.n_st.s_lclass; dump "dh" hex_of_n x.n_st.s_dh; dump "decl" hex_of_n x.n_st.s_decl;
@@ -66,7 +71,8 @@ let () =
         dump "txidx" (fun (a, b) -> hex_of_n a ^ "." ^ hex_of_n b) x.n_txidx;
         dump "l1" hex_of_n x.n_l1;
         dump "upd" (fun _ -> "1") x.n_upd; dump "commit" (fun _ -> "1") x.n_commit;
-        dump "casm" (fun (a, b) -> hex_of_n a ^ "." ^ hex_of_n b) x.n_casm;
+        dump "casm" (fun md -> hex_of_n md.m_at ^ "." ^ hex_of_n md.m_migr ^ "." ^
+                               (match md.m_v1 with Some v -> hex_of_n v | None -> "-") ^ "." ^ hex_of_n md.m_v2) x.n_casm;
         print_endline "end";
         flush stdout
     | _ -> failwith ("line: " ^ line))
